@@ -238,6 +238,17 @@ func (ip *Inode) indbmap(atxn *alloctxn.AllocTxn, root_ common.Bnum, level uint6
 	blkno, newnextroot := ip.indbmap(atxn, nxtroot, level-1, ind)
 	atxn.AssertValidBlock(newnextroot)
 	atxn.AssertValidBlock(blkno)
+	if blkno == common.NULLBNUM {
+		// No block for the data.  Don't link an index block that was
+		// allocated for it just now: nothing would ever free it.
+		if newnextroot != nxtroot {
+			atxn.FreeBlock(newnextroot)
+		}
+		if root != root_ {
+			atxn.FreeBlock(root)
+		}
+		return common.NULLBNUM, root_
+	}
 	if newnextroot != nxtroot {
 		buf.BnumPut(bo, newnextroot)
 	}
